@@ -246,6 +246,8 @@ func (h *Handler) Handle(req, resp dhcpv6.DHCPv6) (dhcpv6.DHCPv6, bool) {
 
 			addPrefix(iapdResp, l)
 			newLeases = append(knownLeases, l)
+			// keep leases allocated for earlier hints of this IA_PD as well
+			knownLeases = newLeases
 			log.Debugf("Allocated %s to %s (IAID: %x)", &allocated, client, iapd.IaId)
 		}
 
